@@ -791,3 +791,91 @@ Proof.
     lia.
   - apply firstn_all2. rewrite map_length. exact H.
 Qed.
+
+(** * Two writer threads *)
+
+Lemma merge_map {A B} (f : A -> B) sched : forall l1 l2, map f (merge sched l1 l2) = merge sched (map f l1) (map f l2).
+Proof.
+  induction sched as [|[|] s IH]; intros l1 l2; cbn [merge].
+  - apply map_app.
+  - destruct l1 as [|a l1]; cbn [map]; [reflexivity|]. f_equal. apply IH.
+  - destruct l2 as [|b l2]; cbn [map]; [reflexivity|]. f_equal. apply IH.
+Qed.
+
+Lemma merge_length {A} sched : forall (l1 l2 : list A), length (merge sched l1 l2) = (length l1 + length l2)%nat.
+Proof.
+  induction sched as [|[|] s IH]; intros l1 l2; cbn [merge].
+  - apply app_length.
+  - destruct l1 as [|a l1]; cbn [length]; [reflexivity|]. rewrite IH. reflexivity.
+  - destruct l2 as [|b l2]; cbn [length]; [lia|]. rewrite IH. cbn [length]. lia.
+Qed.
+
+Lemma merge_Forall {A} (P : A -> Prop) sched : forall l1 l2, Forall P l1 -> Forall P l2 -> Forall P (merge sched l1 l2).
+Proof.
+  induction sched as [|[|] s IH]; intros l1 l2 H1 H2; cbn [merge].
+  - apply Forall_app. split; assumption.
+  - destruct l1 as [|a l1]; [exact H2|]. inversion H1; subst. constructor; [assumption | apply IH; assumption].
+  - destruct l2 as [|b l2]; [exact H1|]. inversion H2; subst. constructor; [assumption | apply IH; assumption].
+Qed.
+
+Lemma stamped_spec readings : forall l, length readings = length l ->
+  map i_now (stamped readings l) = readings
+  /\ map i_frame (stamped readings l) = map i_frame l
+  /\ map (fun p => m_ts (i_meta p)) (stamped readings l) = map (fun p => m_ts (i_meta p)) l.
+Proof.
+  unfold stamped. induction readings as [|c cs IH]; intros [|p l] H; try discriminate; [repeat split|].
+  cbn [length] in H. destruct (IH l ltac:(lia)) as (H1 & H2 & H3).
+  cbn [combine map fst snd set_now i_now i_frame i_meta]. repeat split; f_equal; assumption.
+Qed.
+
+Lemma clocks_of_stamped readings l : length readings = length l ->
+  clocks_of (stamped readings l) = combine readings (map (fun p => m_ts (i_meta p)) l).
+Proof.
+  unfold stamped, clocks_of. revert l. induction readings as [|c cs IH]; intros [|p l] H; try discriminate; [reflexivity|].
+  cbn [length] in H. cbn [combine map fst snd set_now i_now i_meta]. f_equal. apply IH. lia.
+Qed.
+
+(** For EVERY schedule of two writer threads: the file holds the packets in the order in which
+    the lock was taken (each thread's own order preserved), the record times are the clock
+    readings in that same order, hence never decrease, and the replay delivers all of them
+    with non-decreasing relative timestamps. *)
+Lemma concurrent_writers :
+  forall rnd hub d start sched readings (l1 l2 : list pin),
+    monotone rnd ->
+    Forall (fun p => frame_ok d (i_frame p) = true) l1 ->
+    Forall (fun p => frame_ok d (i_frame p) = true) l2 ->
+    length readings = (length l1 + length l2)%nat ->
+    sortedb readings = true ->
+    let l := stamped readings (merge sched l1 l2) in
+    sortedb (ts_list (clocks_of l)) = true ->
+    (all_some (clocks_of l) \/ exists D, offset_consistent D (clocks_of l)) ->
+    let out := concurrent_capture rnd hub d start sched readings l1 l2 in
+    map o_frame out = merge sched (map i_frame l1) (map i_frame l2)
+    /\ sortedb (map o_time out) = true
+    /\ sortedb (map o_rel out) = true
+    /\ Forall (fun r => 0 <= r) (map o_rel out)
+    /\ length out = (length l1 + length l2)%nat.
+Proof.
+  intros rnd hub d start sched readings l1 l2 Hr Hf1 Hf2 Hlen Hs. cbv zeta. intros Ht Hc.
+  unfold concurrent_capture.
+  assert (Hl : length readings = length (merge sched l1 l2)) by (rewrite merge_length; exact Hlen).
+  destruct (stamped_spec readings _ Hl) as (Hnow & Hfr & _).
+  set (l := stamped readings (merge sched l1 l2)) in *.
+  assert (Hf : Forall (fun p => frame_ok d (i_frame p) = true) l).
+  { apply Forall_forall. intros p Hp.
+    assert (Hin : In (i_frame p) (map i_frame l)) by (apply in_map; exact Hp).
+    rewrite Hfr in Hin. apply in_map_iff in Hin as (q & Hq & Hqin). rewrite <- Hq.
+    pose proof (merge_Forall _ sched l1 l2 Hf1 Hf2) as Hall. rewrite Forall_forall in Hall. apply Hall. exact Hqin. }
+  assert (Hn : sortedb (map fst (clocks_of l)) = true).
+  { unfold clocks_of. rewrite map_map. cbn [fst].
+    replace (map (fun x : pin => i_now x) l) with (map i_now l) by reflexivity. rewrite Hnow. exact Hs. }
+  destruct (order_and_monotone_time rnd hub d start l Hr Hf Hn Ht Hc) as (H1 & H2 & H3 & H4 & _).
+  repeat split; try assumption.
+  - rewrite H1, Hfr. apply merge_map.
+  - rewrite <- (map_length o_frame), H1, Hfr, map_length. apply merge_length.
+Qed.
+
+(** a file whose order is not the order of the clock readings has decreasing record times *)
+Lemma stamping_outside_the_lock_refuted :
+  exists c1 c2, c1 <= c2 /\ sortedb (written_times (fun z => z) None [(c2, None); (c1, None)]) = false.
+Proof. exists 1000, 1001. split; [lia | vm_compute; reflexivity]. Qed.
